@@ -20,6 +20,9 @@ pub struct Violation {
     pub key: String,
     /// human readable details of this instance
     pub detail: String,
+    /// optional machine-readable hint for the minimiser (e.g. which enumerated fault failed)
+    #[serde(default)]
+    pub hint: Option<J>,
 }
 
 #[derive(Clone, Debug, Default)]
@@ -58,6 +61,7 @@ impl RunOutcome {
         self.violations.push(Violation {
             key: key.into(),
             detail: detail.into(),
+            hint: None,
         });
     }
 }
@@ -68,6 +72,10 @@ pub trait Scenario: Serialize + DeserializeOwned + Clone + Send + Sync + 'static
     /// Simpler candidates, most aggressive first.
     fn shrink(&self) -> Vec<Self> {
         vec![]
+    }
+    /// Candidates given the hint attached to the violation being minimised.
+    fn shrink_with_hint(&self, _hint: &Option<J>) -> Vec<Self> {
+        self.shrink()
     }
     /// short description for the evidence samples
     fn describe(&self) -> J {
@@ -404,7 +412,7 @@ fn minimise<Sc: Scenario>(sc: &Sc, v: &Violation, run_seed: u64) -> (Sc, Violati
     let mut steps = 0u64;
     let mut budget = 400u64;
     'outer: loop {
-        for cand in cur.shrink() {
+        for cand in cur.shrink_with_hint(&cur_v.hint) {
             if budget == 0 {
                 break 'outer;
             }
